@@ -320,7 +320,40 @@ def c16(ctx):
     corpus_validate(ctx, scripts, "c16tests")
 
 
+FRAME_PROPS = ["HeapFrame", "ScopeFrame", "OutputMonotone"]
+
+
+def c11(ctx):
+    ml, mc = (3, 2) if ctx.quick else (5, 3)
+    ctx.rule = ("every list of length 0..%d and every string of 0..%d characters over {a, 2-byte, 3-byte} x every "
+                "index / bound in [-2, len+2], omitted, and non-integer kinds, for index read, range read, the "
+                "slice / split-join / concatenation laws, index assignment and range assignment (list and string "
+                "right-hand sides of every length 0..len+1, non-sequence kinds); non-trivial = every case (each "
+                "is one point of a law's domain or its complement); distinct = distinct parameter tuples"
+                % (ml, mc))
+    out = ctx.run_model("MC_C11", "C11Params", invariants=["C11Laws"], props=FRAME_PROPS,
+                        constants={"MaxLen": "= %d" % ml, "MaxChars": "= %d" % mc})
+    ctx.replay(out, "c11", seeds=(None,) if ctx.quick else (None, ctx.seed))
+    scripts = [s for s in repo_test_scripts() if "index" in s[0] or "range" in s[0] or "concat" in s[0]]
+    corpus_validate(ctx, scripts, "c11tests")
+
+
+def c12(ctx):
+    hl = 2 if ctx.quick else 3
+    ctx.rule = ("all histories of 1..%d operations (insert / op-assign / read, through .k and [\"k\"]) over keys "
+                "{a, B, b, _, \"\", \"k k\"} observed by print / for / ==; each history also run through both "
+                "access paths on two objects (o == q); all 36 pairs of insertion orders of a 3-key set; 13 literal "
+                "forms; non-trivial = every case; distinct = distinct parameter tuples" % hl)
+    out = ctx.run_model("MC_C12", "C12Params", invariants=["C12Laws"], props=FRAME_PROPS,
+                        constants={"HistLen": "= %d" % hl})
+    ctx.replay(out, "c12", seeds=(None,) if ctx.quick else (None, ctx.seed))
+    scripts = [s for s in repo_test_scripts() if "object" in s[0] or "prop" in s[0]]
+    corpus_validate(ctx, scripts, "c12tests")
+
+
 REGISTRY = {
+    "C11": c11,
+    "C12": c12,
     "C16": c16,
     "C07": c07,
 }
